@@ -56,7 +56,7 @@ Theorem C15_dispatch : forall w c argv h,
   (let '(s', r) := exec_list (conn_db w 0) argv (w_st w) in (World s' (w_conns w), r)).
 Proof.
   intros w c argv h Hargv Hh. unfold exec_cmd, exec_list. rewrite Hargv.
-  unfold handler_of. rewrite Hh. by destruct (run_seq _ _ _).
+  unfold handler_of, first_some. cbn [fold_right]. rewrite Hh. by destruct (run_seq _ _ _).
 Qed.
 Print Assumptions C15_dispatch.
 
